@@ -109,8 +109,8 @@ TraceNext ==
         /\ UNCHANGED sid
 TraceSpec == TraceInit /\ [][TraceNext]_tvars
 
-RECURSIVE SumLens(_)
-SumLens(i) == IF i = 0 THEN 0 ELSE Len(Sessions[i].events) + 1 + SumLens(i - 1)
-\* every event of every session was consumed: one state per event plus the initial one
-AllConsumed == TLCGet("stats").distinct = SumLens(Len(Sessions))
+\* every event of every session was consumed: one state per event plus one initial state per
+\* session (the harness writes the expected total into the document; a recursive sum over
+\* thousands of sessions overflows TLC's evaluation stack)
+AllConsumed == TLCGet("stats").distinct = Doc.expected_states
 =============================================================================
